@@ -9,17 +9,17 @@ ALL = ["C%02d" % i for i in range(1, 21)]
 CHECKS = {
  "C01": ("exploration",
          "bounded exhaustive enumeration: token strings up to 4/5 tokens, operators and built-ins over a boundary pool, nesting ladders in isolated child processes",
-         "Quick: all 6.4 M space-joined strings of 1..4 tokens over a 50-token alphabet (thorough: 1..5, 319 M), every operator over all ordered pairs of a 53-value boundary pool in literal and bound forms, every built-in function/macro/type name found in the repository's tables called as function and as method with every argument tuple of arity 0..2 (pool) and 3 (thorough: 4) over a 12-value pool plus 8 macro shapes, and 16 nesting constructs at depths 1..65536, each rung in its own child process, in two build profiles and on 8 MiB and 2 MiB stacks. Oracle: a value, an error or a syntax error - never a panic (caught at the API boundary), abort (signal) or hang. Complete for these bounds.",
+         "Quick: all 6.4 M space-joined strings of 1..4 tokens over a 50-token alphabet (thorough: 1..5, 319 M), every operator over all ordered pairs of a 53-value boundary pool in literal and bound forms, every built-in function/macro/type name found in the repository's tables called as function and as method with every argument tuple of arity 0..2 (pool) and 3 (thorough: 4) over a 13-value pool plus 8 macro shapes, and 24 nesting constructs (brackets, calls, macros, f-strings, match, unary runs, postfix chains and a left-nested chain per binary operator class) at depths 1..65536, each rung in its own child process, in two build profiles and on 8 MiB and 2 MiB stacks. Oracle: a value, an error or a syntax error - never a panic (caught at the API boundary), abort (signal) or hang. Complete for these bounds.",
          "Trusted: catch_unwind + process exit status as observers. Inputs beyond the bounds are not explored. Cyclic program graphs are covered by C12's check. A known finding is keyed by construct, profile, stack size and depth class.",
          "DESIGN.md section 3, C01"),
  "C02": ("exploration",
          "bounded exhaustive enumeration of flat operator sequences with prefix/postfix decorations, each parsed by an independent table-driven reference parser and compared with the canonicalised public syntax tree in 9 renderings plus evaluation",
-         "Every flat sequence operand (op operand)^k, k <= 3/4, over the 14 binary operators and ? : (16 symbols), plain, with each of 29 prefix-run x postfix-chain decorations on one operand at a time and (k <= 1/2) on all operands at once; the canonical form of Program::ast() must equal the reference tree in 9 renderings (as is / parenthesised per the reference tree / doubly parenthesised x no blanks / single blanks / newline-tab runs) and evaluation under an int and a bool environment must equal the reference evaluation of the reference tree; sequences the grammar gives no structure must be rejected. Complete for these bounds only.",
+         "Every flat sequence operand (op operand)^k, k <= 3/4, over the 14 binary operators and ? : (16 symbols), plain, with each of 29 prefix-run x postfix-chain decorations on one operand at a time and (k <= 1/2) on all operands at once; the canonical form of Program::ast() must equal the reference tree in 9 renderings (as is / parenthesised per the reference tree / doubly parenthesised x no blanks / single blanks / newline-tab runs) and evaluation under an int and a bool environment - also with every subset of the operands written as literals (incl. a hexadecimal literal ending in e, in three layouts) and under boundary values (minimum/maximum int, a uint, 2^32) - must equal the reference evaluation of the reference tree; sequences the grammar gives no structure must be rejected. Complete for these bounds only.",
          "Trusted: the reference parser in c02.rs as the reading of the CEL grammar; call arguments are compared in source order.",
          "DESIGN.md section 3, C02"),
  "C03": ("exploration",
          "bounded exhaustive enumeration of operand pairs x operators x literal/bound forms x build profiles against an exact i128/IEEE reference model",
-         "Every ordered pair of a boundary grid (quick 75 values, thorough 609: all +-2^k, +-2^k+-1, uint edges, 26 doubles incl. NaN/inf/-0/subnormals, one value per other type) under + - * / % and unary minus, in all four literal/bound forms and in two build profiles, is executed on the real compiler+VM and compared with exact arithmetic. Complete for the grid; says nothing about operands outside it.",
+         "Every ordered pair of a boundary grid (quick 75 values, thorough 609: all +-2^k, +-2^k+-1, uint edges, 26 doubles incl. NaN/inf/-0/subnormals, one value per other type) under + - * / % and unary minus, in all four literal/bound forms and in two build profiles, plus (a op b) op c and a op (b op c) over all triples of a 12-value grid x 25 operator pairs x 8 forms, is executed on the real compiler+VM and compared with exact arithmetic. Complete for the grid; says nothing about operands outside it.",
          "Trusted: hardware IEEE-754 doubles, Rust i128 arithmetic, the harness reference model (refmodel.rs). double%double and time arithmetic are left unspecified.",
          "DESIGN.md section 3, C03"),
  "C04": ("exploration",
@@ -29,42 +29,42 @@ CHECKS = {
          "DESIGN.md section 3, C04"),
  "C05": ("exploration",
          "bounded exhaustive enumeration of logical/conditional expression trees over an atom set with call-recording functions, compared (outcome and exact call log) with a reference lazy evaluator",
-         "Every fully parenthesised tree over || && ?: ! with <=3 internal nodes and <=4 leaves (thorough: <=4 nodes/<=4 leaves and <=3 nodes/<=5 leaves) with every leaf drawn from 12/14 atoms (literal and bound true/false, truthy/falsy non-bools, a foldable failure, a run-time failure, an unbound name, functions that record their call and return true/false/an error) is executed; the result and the exact sequence of recorded calls must equal the reference lazy evaluator. Every match with 0..2/3 cases over 7 patterns x 5 arms x 11 scrutinees (literal and bound), and a truthiness table of 35 values of every type x 16 contexts x literal/bound. Complete for these bounds only.",
+         "Every fully parenthesised tree over || && ?: ! with <=3 internal nodes and <=4 leaves plus every shape with exactly 5 leaves over 6 atoms (thorough: <=4 nodes/<=4 leaves and <=3 nodes/<=5 leaves over all atoms) with every leaf drawn from 12/14 atoms (literal and bound true/false, truthy/falsy non-bools, a foldable failure, a run-time failure, an unbound name, functions that record their call and return true/false/an error) is executed; the result and the exact sequence of recorded calls must equal the reference lazy evaluator. Every match with 0..2/3 cases over 7 patterns x 5 arms x 11 scrutinees (literal and bound), and a truthiness table of 35 values of every type x 18 contexts (operators, !, conditions, macro predicates over list and map receivers, bool()) x literal/bound. Complete for these bounds only.",
          "Trusted: the reference evaluator (c05.rs) as the reading of the statement; failure kinds are not compared; matches whose pattern comparison involves unrelated types are totality-only; bool(s) on the documented literal spellings is a conversion.",
          "DESIGN.md section 3, C05"),
  "C06": ("exploration",
          "bounded exhaustive enumeration of lists, map literals with repeated keys, indices, probes and string/bytes pairs in literal, partly bound and bound forms against a Vec/BTreeMap reference",
-         "All lists of length <=3/4 over 9 elements (one per type, nested list and map included) in 3 forms (folded literal, literal of bound variables, bound) with value, size and l[i] for every int in [-size-2, size+2], the int/uint extremes, every uint up to size+1 and 8 non-integer indices (literal and bound); membership of 17 probes in every list of length <=2; all ordered pairs of lists of length <=2 under +; all map literals with <=3/4 entries over keys {a, b, ''} with repetition in n+4 forms (constant, each single value variable, all values variable, variable keys, bound map) with m[k], m.k, k in m for present, absent and non-string keys; substring-in, + and size for all strings of length <=3/4 over {a, b, e-acute} x needles of length <=2; bytes pairs; `in` and `+` over all ordered pairs of one value per type outside their domains. Complete for these bounds only.",
+         "All lists of length <=3/5 over 9 elements (one per type, nested list and map included) in 3 forms (folded literal, literal of bound variables, bound) with value, size and l[i] for every int in [-size-2, size+2], the int/uint extremes, every uint up to size+1 and 8 non-integer indices (literal and bound); membership of 17 probes in every list of length <=2; all ordered pairs of lists of length <=2 under +; all map literals with <=3/5 entries over keys {a, b, '', size} with repetition (one stored value is null) in n+4 forms (constant, each single value variable, all values variable, variable keys, bound map) with m[k], m.k (also with variables named like the fields bound), k in m for present, absent and non-string keys; substring-in, + and size for all strings of length <=3/4 over {a, b, e-acute} x needles of length <=2; bytes pairs; `in` and `+` over all ordered pairs of one value per type outside their domains. Complete for these bounds only.",
          "Trusted: the Vec/BTreeMap reference in c06.rs. Membership across numeric types, indexing of strings/bytes and size of maps are not fixed by the statement.",
          "DESIGN.md section 3, C06"),
  "C07": ("exploration",
          "bounded exhaustive enumeration of (list, macro form, body) cells with call-recording bodies against the defining folds; every insertion order and construction path of small maps for the key-order part",
-         "All lists of length <=5/6 over {0,1,2}, all 0/1 lists up to length 8/10 and lists of length 16..64 (thorough: every length 11..64) with at most one/two 1s x 74 macro forms (all, exists, exists_one, filter x 11 bodies; map/2 x 4; map/3 x 20; reduce x 6 - bodies read the loop variable, an outer variable, a stored program, inner macros re-using the name or reading the outer loop variable, a call-recording function, fail at one element, or read an unbound name) x literal/bound list x outer binding of the loop-variable name absent/100 x the name read before/after the macro: result and exact call log (visiting order, stopping point) equal the fold; caller's binding unchanged. Every non-empty subset of 4 keys x 5 map macro forms with the map built in every insertion order by 4 construction paths, twice: one fixed key order. Complete for these bounds only.",
+         "All lists of length <=5/6 over {0,1,2}, all 0/1 lists up to length 8/10 and lists of length 16..64 (thorough: every length 11..64) with at most one/two 1s x 74 macro forms (all, exists, exists_one, filter x 11 bodies; map/2 x 4; map/3 x 20; reduce x 6 - bodies read the loop variable, an outer variable, a stored program, inner macros re-using the name or reading the outer loop variable, a call-recording function, fail at one element, or read an unbound name) x literal/bound list x outer binding of the loop-variable name absent/100 x the name read before/after the macro: result and exact call log (visiting order, stopping point) equal the fold; caller's binding unchanged. Every non-empty subset of 4 keys x 5 map macro forms with the map built in every insertion order by 4 construction paths, twice: one fixed key order. All lists of length <=3 over 10 elements of every type x 9 macro forms; all macro forms with programs stored under the loop-variable names. Complete for these bounds only.",
          "Trusted: the folds in c07.rs. Sortedness of the key order is not demanded.",
          "DESIGN.md section 3, C07"),
  "C08": ("exploration",
          "bounded exhaustive enumeration of field paths x binding configurations x contexts and of coalesce argument lists with call-recording arguments against a two-class (absent / other failure) lattice",
-         "Field paths of depth 0..4 in 4 spellings x every binding configuration (chain stops at any level: root unbound, field missing, null, int, string, list, empty map; or reaches a null/value/map leaf) x has() in 9 contexts and through a loop variable and coalesce(e, 'dflt') in 5 contexts and through a loop variable; every coalesce argument list of length 0..4/5 over 14 item kinds (present, null, unbound, missing field/index, null field, foldable and run-time division by zero, type error, bad index, call-recording present/null) in 4 contexts with the exact set of evaluated arguments; has() over each item. Complete for these bounds only.",
+         "Field paths of depth 0..4 in 4 spellings x every binding configuration (chain stops at any level: root unbound, field missing, null, int, string, list, empty map; or reaches a null/value/map leaf) x has() in 9 contexts and through a loop variable and coalesce(e, 'dflt') in 5 contexts and through a loop variable; every coalesce argument list of length 0..4/6 over 14 item kinds (present, null, unbound, missing field/index, null field, foldable and run-time division by zero, type error, bad index, call-recording present/null) in 4 contexts with the exact set of evaluated arguments; has() over each item; bare identifiers spelled like built-in functions and macros (unbound / bound / null) in all contexts. Complete for these bounds only.",
          "A field looked up on a non-map value may count as absent or other; only consistency between has, coalesce and all contexts is demanded there.",
          "DESIGN.md section 3, C08"),
  "C09": ("exploration",
          "bounded exhaustive differential enumeration: every template x every hole-value tuple x every subset of holes rendered as literal instead of bound variable x one hole left unbound; all renderings of one case must agree",
-         "147 expression templates with 1..3 holes (every operator, ?:, match, list/map construction incl. repeated keys, index, member, type constructors, built-ins with constant and partly constant arguments, has/coalesce, every macro, foldable calls around constructs that absorb failures) x every tuple of hole values from a 15/25-value pool x (all holes bound | hole j left unbound) x every subset of the bound holes written as a literal: the all-variable rendering runs entirely in the VM, the all-literal one entirely in the compiler; all must give the same value bit for bit or all fail in the same absent/other class. 8 programs reading the clock are compiled once and executed three times 12 ms apart (strictly later results, no timestamp constant in the bytecode). Complete for these bounds only.",
+         "about 220 expression templates with 1..3 holes (every operator, ?:, match, list/map construction incl. repeated keys, index, member, type constructors, built-ins with constant and partly constant arguments, has/coalesce, every macro and every name of the function table, foldable calls around constructs that absorb failures, constant failures next to holes, run-time-only macros nested in collections with a hole in the receiver so that one rendering cannot be folded) x every tuple of hole values from a 15/37-value pool x (all holes bound | hole j left unbound) x every subset of the bound holes written as a literal: the all-variable rendering runs entirely in the VM, the all-literal one entirely in the compiler; all must give the same value bit for bit or all fail in the same absent/other class. 17 programs reading the clock (free and receiver form, up to three blocks deep) are compiled once and executed three times 12 ms apart (strictly later results, no timestamp constant in the bytecode). Complete for these bounds only.",
          "No third oracle: the comparison is differential. Assumes the wall clock does not step back by 5 ms between observations. Built-in functions are not rebound by the caller (as the property states).",
          "DESIGN.md section 3, C09"),
  "C10": ("model_checking",
          "explicit-state exploration of an abstract stack machine (block, pc, height) over all paths of every emitted block, bound to the implementation by replaying real VM traces (hook) against the model; exhaustive enumeration of short instruction sequences against a reference small-step VM",
-         "For 12.5k/0.3M generated programs (C09's templates in every literal/variable mask, all || && ?: ! trees with <=2/3 internal nodes over 4 atoms, match with 0..2/3 cases x 6 patterns x 6 arms x 4 scrutinees, f-strings, macros with branching bodies, chains) every block incl. nested code blocks is explored over ALL paths: every reachable (pc, height) state, jump targets in range and forward, no pop from an empty stack, one height per pc, height 1 at the end. Every real execution under every assignment of up to 3 variables over 4 values is replayed against the model (same heights, only model edges). All instruction sequences of length 1..3/4 over 7 plain instructions and jmp/jmp-if with every forward distance and 3 out-of-range distances are loaded through the public deserialiser and compared with a reference VM. Evidence reports states, transitions, blocks, traces validated and model edges covered.",
+         "For 12.6k/0.3M generated programs (C09's templates in every literal/variable mask, all || && ?: ! trees with <=2/3 internal nodes over 4 atoms, match with 0..2/3 cases x 6 patterns x 6 arms x 4 scrutinees, f-strings, macros with branching bodies, chains) every block incl. nested code blocks is explored over ALL paths: every reachable (pc, height) state, jump targets in range and forward, no pop from an empty stack, one height per pc, height 1 at the end. Every real execution under every assignment of up to 3 variables over 4 values is replayed against the model (same heights, only model edges). All instruction sequences of length 1..3/4 over 8 plain instructions (incl. push of an error value) and jmp/jmp-if with every forward distance and 3 out-of-range distances are loaded through the public deserialiser and compared with a reference VM. Evidence reports states, transitions, blocks, traces validated and model edges covered.",
          "Trusted: the trace hook (feature rscel_verif). A disagreement between the stack-effect table and the VM is a machinery error (exit 2), not a verdict.",
          "DESIGN.md section 3, C10"),
  "C11": ("model_checking",
          "explicit-state search over operation histories whose transitions are executed on the real CelContext/BindContext objects (states re-derived by replaying the history), deduplicated breadth-first search plus every history up to a depth without deduplication, against a map-based reference model and freshly built objects",
-         "Model: two contexts (3 program names, 10 colliding sources) and two binding sets (2 variables, 4 values); 20 operations (add/replace, bind/rebind, clone context, clone bindings, exec, inspect). Breadth-first search to depth 6/12 deduplicated on the canonical abstract state with every transition executed on real objects and every successor checked on arrival; every history of length 1..4/5 (168k / 3.4M) without deduplication. After every history: the real objects hold exactly the model state (source, bytecode equal to a fresh compile, bindings), every stored program under both binding sets executed repeatedly equals freshly built objects holding the same abstract state (built through the other construction path), every exec inside the history gave what the state before it determines. Evidence reports states, transitions, traces validated.",
+         "Model: two contexts (3 program names, 11 colliding sources) and two binding sets (2 variables, 4 values); 21 operations (add/replace, bind/rebind, clone context, clone bindings, exec, inspect). Breadth-first search to depth 6/12 deduplicated on the canonical abstract state with every transition executed on real objects and every successor checked on arrival; every history of length 1..4/5 (204k / 4.3M) without deduplication; an interference sweep (each of 126 programs over regex patterns, zones, units, durations after all others ran on the same thread). After every history: the real objects hold exactly the model state (source, bytecode equal to a fresh compile, bindings), every stored program under both binding sets executed repeatedly equals freshly built objects holding the same abstract state (built through the other construction path), every exec inside the history gave what the state before it determines. Evidence reports states, transitions, traces validated.",
          "Schedules: rscel has no shared mutable state and no synchronisation (audit re-run by the check, hits listed in the evidence), so controlled-scheduler exploration would see one schedule; the thread dimension is covered only by a free-running 16-thread differential labelled as not exhaustive.",
          "DESIGN.md section 3, C11"),
  "C12": ("model_checking",
          "explicit-state enumeration of all reference graphs between named programs (every edge through every referencing construct) and of name-collision configurations, executed on the real context; graphs with a cycle and long chains run in isolated child processes on two stack sizes and two build profiles",
-         "All subsets of {variable, stored program} behind identifiers v and int, of {bound function, macro} in call position for g and int, field vs method, rebinding/re-adding; ALL 21952 / 1.87M reference graphs on 3/4 named programs with out-degree <= 1 where each edge goes through one of 9 constructs (bare identifier, arithmetic operand, macro body, macro range, call argument, has, coalesce, f-string, ?: branch): acyclic -> value by substitution, cycle reachable from the start -> an error, every cyclic graph run in child processes (checked and dev profile, 8 MiB main stack and 2 MiB thread stack): never an abort; chains of length 1..64 through each construct, plain and with a 1- and a 64-element loop inside the middle link; 711 JSON values of depth <= 2 bound from JSON vs directly. Complete for these bounds only.",
+         "All subsets of {variable, stored program} behind identifiers v and int in 8 contexts, of {bound function, macro} in call position for g and int, field vs method, rebinding/re-adding through bind_param and the JSON entry point in both orders; ALL reference graphs with out-degree <= 1 on 3 programs x 9 core constructs and 2 programs x all 18 constructs (thorough: 3 x 18 and 4 x 9; 23k / 2.0M graphs) where each edge goes through a referencing construct (bare identifier, arithmetic operand, call argument, has, coalesce, f-string, ?: branch and every macro site: map over list and map receivers, map range, map/3, filter over list and map, all, exists, exists_one, reduce step and seed): acyclic -> value by substitution, cycle reachable from the start -> an error, every cyclic graph run in child processes (checked and dev profile, 8 MiB main stack and 2 MiB thread stack): never an abort; chains of length 1..64 through each of the 18 constructs, plain and with a 1- and a 64-element loop inside the middle link; 711 JSON values of depth <= 2 bound from JSON vs directly. Complete for these bounds only.",
          "A case counts as an abort when the child dies between its begin and end markers. `m.g` without a call when only a method exists is not fixed.",
          "DESIGN.md section 3, C12"),
  "C13": ("exploration",
@@ -90,7 +90,7 @@ CHECKS = {
          "DESIGN.md section 3, C16"),
  "C17": ("exploration",
          "bounded exhaustive enumeration of (syntactic position, nested position, filler) programs whose free variables and identifiers the generator knows by construction",
-         "46 syntactic positions (operands of every operator class, call arguments and receivers, macro ranges/bodies/nested bodies/predicates, reduce seed and step, f-string segments, index expressions, map keys and values, list elements, match scrutinees/patterns/arms, ternary conditions and branches incl. untaken ones, has/coalesce arguments, member chain roots, parentheses) x 4 fillers, and all ordered pairs of positions x fillers (8464 programs): Free(E) in params(E) in Idents(E); binding every reported name leaves no free variable unbound; filter_from_bindings removes exactly the names bound as variable (every subset of up to 2), function or macro. Complete for these bounds only.",
+         "55 syntactic positions (operands of every operator class, call arguments and receivers, macro ranges/bodies/nested bodies/predicates, reduce seed and step, f-string segments, index expressions, map keys and values, list elements, match scrutinees/patterns/arms, ternary conditions and branches incl. untaken ones, has/coalesce arguments, member chain roots, parentheses) x 6 fillers, all ordered pairs of positions x fillers (thorough: all triples, 0.7M programs): Free(E) in params(E) in Idents(E); binding every reported name leaves no free variable unbound; additionally binding every unreported name never changes the result; filter_from_bindings removes exactly the names bound as variable (every subset of up to 2), function or macro. Complete for these bounds only.",
          "Loop variables, function names and field names may be reported; only names that do not occur in the source are excluded.",
          "DESIGN.md section 3, C17"),
  "C18": ("exploration",
@@ -105,7 +105,7 @@ CHECKS = {
          "DESIGN.md section 3, C19"),
  "C20": ("exploration",
          "bounded exhaustive enumeration of source trees over the translatable subset and of hostile string literals in every string position; the emitted SQL is read back by an independent tokenizer/parser for the emitted dialect and compared with the source tree",
-         "All source trees with <=1/2 construct nodes over 8 leaves and the full alphabet (14 binary operators, ! and - runs, ?:, parentheses, lists, maps, free calls with 0..3 arguments, 9 type constructors with 0..2 arguments, method calls on any receiver, member and index access) plus all trees with exactly 2/3 nodes over a reduced alphabet (472k / 60M), match/bytes/f-string in 12 positions each, and all 820/7381 strings of length <=3/4 over {a ' \" \\ - ; LF * /} in 9 positions. The SQL is tokenised by the SQL standard string rules and parsed with SQL precedences (:: [] -> call tightest, then ! -, * / %, + -, comparisons/in, AND, OR): the tree must equal the source tree, the multiset of string tokens must equal the CEL strings and member names, no comment opener or semicolon outside a string; untranslatable constructs must be reported unsupported, never a panic. Complete for these bounds only.",
+         "All source trees with <=1/2 construct nodes over 8 leaves and the full alphabet (14 binary operators, ! and - runs, ?:, parentheses, lists, maps, free calls with 0..3 arguments, 9 type constructors with 0..2 arguments, method calls on any receiver, member and index access) plus all trees with exactly 2/3 nodes over a reduced alphabet (475k / 171M, enumerated lazily by index), match/bytes/f-string in 12 positions each, and all 820/7381 strings of length <=3/4 over {a ' \" \\ - ; LF * /} in 9 positions, and 12 field/method names spelled like words of the emitted dialect. The SQL is tokenised by the SQL standard string rules and parsed with SQL precedences (:: [] -> call tightest, then ! -, * / %, + -, comparisons/in, AND, OR): the tree must equal the source tree, the multiset of string tokens must equal the CEL strings and member names, no comment opener or semicolon outside a string; untranslatable constructs must be reported unsupported, never a panic. Complete for these bounds only.",
          "Trusted: the reader in c20.rs as the meaning of the emitted dialect. Known finding: --x is emitted as the comment opener -- (pinned by a repository test).",
          "DESIGN.md section 3, C20"),
 }
